@@ -192,7 +192,12 @@ impl CaseInput for AuthUrlCase {
                     (k, gen::hostile_s(r))
                 })
                 .collect(),
-            state: gen::hostile_s(r),
+            state: match r.below(8) {
+                0 => String::new(),
+                1 => format!("{} ", gen::hostile_s(r)),
+                2 => format!("&{}=", gen::hostile_s(r)),
+                _ => gen::hostile_s(r),
+            },
             noise: r.chance(1, 2),
             order: r.below(1 << 20),
             calls,
@@ -205,25 +210,50 @@ impl CaseInput for AuthUrlCase {
             client = client.set_redirect_uri(RedirectUrl::new(rd.clone()).unwrap());
         }
         let calls = Cell::new(0u32);
-        let first_state = format!("{}{}", self.state, 1);
+        // the first invocation yields EXACTLY the case's state (possibly empty, with blanks or reserved characters at either
+        // end); any further invocation would yield a different token
+        let first_state = self.state.clone();
         let state_fn = || {
             calls.set(calls.get() + 1);
-            // counter-stamped: a second invocation would yield a different token
-            CsrfToken::new(format!("{}{}", self.state, calls.get()))
+            if calls.get() == 1 {
+                CsrfToken::new(self.state.clone())
+            } else {
+                CsrfToken::new(format!("{}#again{}", self.state, calls.get()))
+            }
         };
-        let (noisy, plain);
-        let mut rq: AuthorizationRequest = if self.noise {
-            noisy = client
-                .set_device_authorization_url(DeviceAuthorizationUrl::new("https://noise.example/dev".into()).unwrap())
-                .set_introspection_url_option(Some(IntrospectionUrl::new("https://noise.example/intro".into()).unwrap()))
-                .set_revocation_url(RevocationUrl::new("https://noise.example/revoke".into()).unwrap())
-                .set_token_uri_option(None)
-                .set_client_secret(ClientSecret::new("noise".into()))
-                .set_auth_type(AuthType::RequestBody);
-            noisy.authorize_url(state_fn)
-        } else {
-            plain = client;
-            plain.authorize_url(state_fn)
+        let (noisy, plain, noisy_maybe, plain_maybe);
+        // order & 4: the authorization endpoint is set CONDITIONALLY (present), so the fallible `authorize_url -> Result`
+        // entry point runs; it must behave exactly like the unconditional one
+        let maybe = self.order & 4 == 4;
+        let mut rq: AuthorizationRequest = match (self.noise, maybe) {
+            (true, false) => {
+                noisy = client
+                    .set_device_authorization_url(DeviceAuthorizationUrl::new("https://noise.example/dev".into()).unwrap())
+                    .set_introspection_url_option(Some(IntrospectionUrl::new("https://noise.example/intro".into()).unwrap()))
+                    .set_revocation_url(RevocationUrl::new("https://noise.example/revoke".into()).unwrap())
+                    .set_token_uri_option(None)
+                    .set_client_secret(ClientSecret::new("noise".into()))
+                    .set_auth_type(AuthType::RequestBody);
+                noisy.authorize_url(state_fn)
+            }
+            (false, false) => {
+                plain = client;
+                plain.authorize_url(state_fn)
+            }
+            (true, true) => {
+                noisy_maybe = client
+                    .set_auth_uri_option(Some(AuthUrl::new(self.endpoint.clone()).unwrap()))
+                    .set_device_authorization_url_option(None)
+                    .set_introspection_url(IntrospectionUrl::new("https://noise.example/intro".into()).unwrap())
+                    .set_revocation_url_option(Some(RevocationUrl::new("https://noise.example/revoke".into()).unwrap()))
+                    .set_token_uri(TokenUrl::new("https://noise.example/token".into()).unwrap())
+                    .set_client_secret(ClientSecret::new("noise".into()));
+                noisy_maybe.authorize_url(state_fn).expect("authorization endpoint is present")
+            }
+            (false, true) => {
+                plain_maybe = client.set_auth_uri_option(Some(AuthUrl::new(self.endpoint.clone()).unwrap()));
+                plain_maybe.authorize_url(state_fn).expect("authorization endpoint is present")
+            }
         };
         // the builder methods are called in the case's order: a method that clobbers what another one set
         // (e.g. use_implicit_flow resetting the PKCE challenge) shows up under some order
